@@ -480,6 +480,122 @@ theorem locateAccount_lookup (O : Opaque) (st : PCell) (addr : Bytes) (acc : PCe
   have h2 : ¬ sl.1.length < 320 := by omega
   simp [lookupShardAccount, hroot, hlook, hskip, h2, hidx]
 
+/-! ### `parseAugP` is the C10 parser model (`Hashmap.parseAugEdge`) transported to constructed cells -/
+
+theorem toCells_cons2 (l r : PCell) (more : List PCell) :
+    PCell.toCells (l :: r :: more) = l.toCell :: r.toCell :: PCell.toCells more := by
+  simp [PCell.toCells]
+
+/-- decoders on constructed-cell slices and decoders on tree slices (`Spec.Hashmap.AugDec`) that do the same: the extra
+reader succeeds on the same slices and leaves the same rest, the value reader succeeds on the same slices -/
+structure DecCompat {X X' Y' : Type} (decY : PSlice → Option PSlice) (decX : PSlice → Option X)
+    (D : Spec.Hashmap.AugDec X' Y') : Prop where
+  extra : ∀ rest refs, (decY (rest, refs)).map (fun sl => (sl.1, PCell.toCells sl.2)) =
+    (D.decY (rest, PCell.toCells refs)).map (·.2)
+  value : ∀ sl : PSlice, (decX sl).isSome = (D.decX (sl.1, PCell.toCells sl.2)).isSome
+
+mutual
+  /-- same success, same keys in the same order as the C10 model `parseAugEdge` run on the underlying tree (the model
+  the C10 correspondence and `c10_parse_any_aug` are about) -/
+  theorem parseAugP_c10 {X X' Y' : Type} (decY : PSlice → Option PSlice) (decX : PSlice → Option X)
+      (D : Spec.Hashmap.AugDec X' Y') (hc : DecCompat decY decX D) :
+      ∀ (c : PCell) (keyLen : Int) (pfx : Bits),
+        (parseAugP decY decX c keyLen pfx).map (·.map Prod.fst) =
+          (parseAugEdge D c.toCell keyLen pfx).map (·.1.map Prod.fst)
+    | .mk info refs, keyLen, pfx => by
+      rw [parseAugP, PCell.toCell, parseAugEdge]
+      by_cases hk : info.kind ≠ -1
+      · simp [hk]
+      · rw [if_neg hk, if_neg hk]
+        cases hd : deserializeHml info.bits keyLen with
+        | none => simp
+        | some r =>
+          obtain ⟨n, s, rest⟩ := r
+          simp only
+          by_cases hz : keyLen - (n : Int) = 0
+          · rw [if_pos hz, if_pos hz]
+            have he := hc.extra rest refs
+            cases hy : decY (rest, refs) with
+            | none =>
+              rw [hy] at he
+              cases hy' : D.decY (rest, PCell.toCells refs) with
+              | none => simp
+              | some q => rw [hy'] at he; simp at he
+            | some sl =>
+              rw [hy] at he
+              cases hy' : D.decY (rest, PCell.toCells refs) with
+              | none => rw [hy'] at he; simp at he
+              | some q =>
+                obtain ⟨y, sl'⟩ := q
+                rw [hy'] at he
+                simp only [Option.map_some, Option.some.injEq] at he
+                subst he
+                have hv := hc.value sl
+                cases hx : decX sl with
+                | none => rw [hx] at hv; cases hx' : D.decX (sl.1, PCell.toCells sl.2) with
+                  | none => simp [hx, hx']
+                  | some x' => rw [hx'] at hv; simp at hv
+                | some x =>
+                  rw [hx] at hv
+                  cases hx' : D.decX (sl.1, PCell.toCells sl.2) with
+                  | none => rw [hx'] at hv; simp at hv
+                  | some x' => simp [hx, hx']
+          · rw [if_neg hz, if_neg hz]
+            exact parseAugForkP_c10 decY decX D hc refs rest (keyLen - n - 1) (pfx ++ s)
+  theorem parseAugForkP_c10 {X X' Y' : Type} (decY : PSlice → Option PSlice) (decX : PSlice → Option X)
+      (D : Spec.Hashmap.AugDec X' Y') (hc : DecCompat decY decX D) :
+      ∀ (refs : List PCell) (rest : Bits) (m : Int) (pfx : Bits),
+        (parseAugForkP decY decX refs rest m pfx).map (·.map Prod.fst) =
+          (parseAugFork D (PCell.toCells refs) rest m pfx).map (·.1.map Prod.fst)
+    | [], rest, m, pfx => by simp [parseAugForkP, PCell.toCells, parseAugFork]
+    | [_], rest, m, pfx => by simp [parseAugForkP, PCell.toCells, parseAugFork]
+    | l :: r :: more, rest, m, pfx => by
+      have hl := parseAugP_c10 decY decX D hc l m (pfx ++ [false])
+      have hr := parseAugP_c10 decY decX D hc r m (pfx ++ [true])
+      rw [parseAugForkP, toCells_cons2, parseAugFork]
+      cases ha : parseAugP decY decX l m (pfx ++ [false]) with
+      | none =>
+        rw [ha] at hl
+        cases ha' : parseAugEdge D l.toCell m (pfx ++ [false]) with
+        | none => simp
+        | some q => rw [ha'] at hl; simp at hl
+      | some a =>
+        rw [ha] at hl
+        cases ha' : parseAugEdge D l.toCell m (pfx ++ [false]) with
+        | none => rw [ha'] at hl; simp at hl
+        | some qa =>
+          obtain ⟨a', ea⟩ := qa
+          rw [ha'] at hl
+          simp only [Option.map_some, Option.some.injEq] at hl
+          cases hb : parseAugP decY decX r m (pfx ++ [true]) with
+          | none =>
+            rw [hb] at hr
+            cases hb' : parseAugEdge D r.toCell m (pfx ++ [true]) with
+            | none => simp
+            | some q => rw [hb'] at hr; simp at hr
+          | some b =>
+            rw [hb] at hr
+            cases hb' : parseAugEdge D r.toCell m (pfx ++ [true]) with
+            | none => rw [hb'] at hr; simp at hr
+            | some qb =>
+              obtain ⟨b', eb⟩ := qb
+              rw [hb'] at hr
+              simp only [Option.map_some, Option.some.injEq] at hr
+              simp only
+              have he := hc.extra rest more
+              cases hy : decY (rest, more) with
+              | none =>
+                rw [hy] at he
+                cases hy' : D.decY (rest, PCell.toCells more) with
+                | none => simp
+                | some q => rw [hy'] at he; simp at he
+              | some sl =>
+                rw [hy] at he
+                cases hy' : D.decY (rest, PCell.toCells more) with
+                | none => rw [hy'] at he; simp at he
+                | some q => simp [hl, hr]
+end
+
 /-! ### spec-valid augmented dictionaries inside a proof (completeness side) -/
 
 open TonVerif.Spec.Hashmap (LabelEnc pre)
